@@ -4,7 +4,7 @@ import itertools
 from .. import wire
 from ..choose import Chooser
 from ..runner import Result
-from ..solo import Solo, REQ
+from ..solo import Solo, REQ, RESP
 from ..drive import h2
 
 ID = 'C12'
@@ -268,8 +268,9 @@ def overflow_case(r, ch):
 
 def local_overflow_case(r, ch, s, client):
     """The same in the other direction: the application has raised a stream's receive window with
-    increment_flow_control_window and then raises its own INITIAL_WINDOW_SIZE; when the peer's acknowledgement
-    applies the change, a window that would pass 2^31-1 is a FLOW_CONTROL_ERROR connection error as well."""
+    increment_flow_control_window, the peer may have used some of it, and the application then changes its own
+    INITIAL_WINDOW_SIZE once or twice; when the peer's acknowledgement applies a change, a window that would pass
+    2^31-1 is a FLOW_CONTROL_ERROR connection error, and every change that keeps it at or below is applied."""
     top = 2**31 - 1
     inc = ch.boundary([1, top - 65535, top - 65535 - 1, 2**30], 1, top - 65535)
     o = s.call('increment_flow_control_window', inc, 1)
@@ -277,27 +278,46 @@ def local_overflow_case(r, ch, s, client):
         r.violate('C12:local-overflow:legal-increment-refused', '%d %s' % (inc, o.brief()))
         return
     win = 65535 + inc
-    edge = top - win + 65535
-    v = ch.boundary([edge, edge + 1, 0, top], 0, top)
-    o = s.call('update_settings', {wire.S_INITIAL_WINDOW_SIZE: v})
-    if not o.ok:
-        r.violate('C12:local-overflow:valid-update-refused', '%d %s' % (v, o.brief()))
-        return
-    o = s.feed(wire.settings(ack=True))
-    new_win = win + (v - 65535)
-    r.step('local overflow', 'client' if client else 'server', 'inc', inc, 'iws', v, 'new-window', new_win, o.brief())
-    goaways = [f for f in o.frames if f.type == wire.GOAWAY]
-    if new_win > top:
-        if o.ok:
-            r.violate('C12:local-overflow:accepted', 'inc=%d iws=%d' % (inc, v))
-        elif not o.is_protocol_error() or o.code != F:
-            r.violate('C12:local-overflow:wrong-error:%s:%s' % (o.exc_name, o.code), 'inc=%d iws=%d' % (inc, v))
-        elif len(goaways) != 1 or goaways[0].f.get('code') != F:
-            r.violate('C12:local-overflow:wrong-goaway', repr(o.frames))
-    elif not o.ok:
-        r.violate('C12:local-overflow:legal-change-rejected:%s' % o.exc_name, 'inc=%d iws=%d' % (inc, v))
-    if abs(new_win - top) <= 2:
-        r.labels.add('overflow-boundary')
+    used = 0
+    if ch.chance(120):
+        # the peer uses part of the window (never acknowledged by the application)
+        used = ch.pick([1, 1000, 16384, 10000])
+        o = s.feed((wire.headers(1, s.hblock(RESP)) if client else b'') + wire.data(1, b'u' * used))
+        if not o.ok:
+            r.violate('C12:harness:data-rejected', o.brief())
+            return
+        win -= used
+        r.labels.add('local-overflow-after-data')
+    iws = 65535
+    for round_ in range(ch.pick([1, 1, 2])):
+        edge = top - win + iws
+        v = ch.boundary([edge, edge + 1, edge - 1, iws + used, iws + max(0, used - 1), 0, top], 0, top)
+        o = s.call('update_settings', {wire.S_INITIAL_WINDOW_SIZE: v})
+        if not o.ok:
+            r.violate('C12:local-overflow:valid-update-refused', '%d %s' % (v, o.brief()))
+            return
+        o = s.feed(wire.settings(ack=True))
+        new_win = win + (v - iws)
+        r.step('local overflow', 'client' if client else 'server', 'inc', inc, 'used', used, 'iws', iws, '->', v,
+               'new-window', new_win, o.brief())
+        goaways = [f for f in o.frames if f.type == wire.GOAWAY]
+        if abs(new_win - top) <= 2:
+            r.labels.add('overflow-boundary')
+        if new_win > top:
+            if o.ok:
+                r.violate('C12:local-overflow:accepted', 'inc=%d used=%d iws=%d->%d' % (inc, used, iws, v))
+            elif not o.is_protocol_error() or o.code != F:
+                r.violate('C12:local-overflow:wrong-error:%s:%s' % (o.exc_name, o.code), 'inc=%d iws=%d' % (inc, v))
+            elif len(goaways) != 1 or goaways[0].f.get('code') != F:
+                r.violate('C12:local-overflow:wrong-goaway', repr(o.frames))
+            break
+        if not o.ok:
+            r.violate('C12:local-overflow:legal-change-rejected:%s' % o.exc_name,
+                      'inc=%d used=%d iws=%d->%d' % (inc, used, iws, v))
+            break
+        win, iws = new_win, v
+        if round_:
+            r.labels.add('local-overflow-second-change')
     r.nontrivial = True
     r.labels.add('local-overflow-scenario')
 
